@@ -65,26 +65,36 @@ def gen_nest(rng, N, mode):
         form = rng.choice(["var", "var+filter", "two-vars"])
     shape = rng.choice(["self", "self", "parent", "grandparent", "sibling", "nested-sibling", "mutual-via-parent"])
     feats = {"form": form, "shape": shape, "mode": mode}
-    # counter handling
+    # counter handling: a list of (parameter, argument of the recursive call, argument of the initial call)
     if form in ("dot", "dot+filter"):
         cond, step = ". < %d" % N, ". + 1 | "
-        params_def, args_next, args_init = [], [], []
+        params = []
         init_input = "0 | "
     else:
         cond, step = "$n < %d" % N, ""
-        params_def, args_next, args_init = ["$n"], ["$n + 1"], ["0"]
+        params = [("$n", "$n + 1", "0")]
         init_input = "[1] | " if mode == "path" else "1 | "
     if form == "two-vars":
-        params_def.append("$m")
-        args_next.append("$m")
-        args_init.append("7")
+        params.append(("$m", "$m", "7"))
     if form in ("var+filter", "dot+filter"):
-        params_def.append("g")
-        args_next.append("g")          # the filter argument is passed on unchanged
-        args_init.append(".")
+        # one or two filter arguments that are passed on unchanged, at any position of the parameter list
+        # (before, between and after the variable arguments)
+        nfilt = rng.choice([1, 1, 2])
+        for name in ("g", "h")[:nfilt]:
+            params.insert(rng.randint(0, len(params)), (name, name, "."))
+        if rng.random() < 0.3 and params[-1][0].startswith("$") is False and form == "var+filter":
+            params.append(("$m", "$m", "7"))
+        feats["form"] = form + ":" + ",".join("$" if q[0].startswith("$") else "f" for q in params)
+    params_def = [q[0] for q in params]
+    args_next = [q[1] for q in params]
+    args_init = [q[2] for q in params]
     sig = lambda name: name + ("(%s)" % "; ".join(params_def) if params_def else "")
     callto = lambda name, args: name + ("(%s)" % "; ".join(args) if args else "")
-    done = "." if mode != "path" else "."
+    done = "."
+    filt = [q for q in params_def if not q.startswith("$")]
+    if filt and rng.random() < 0.5:
+        done = rng.choice(filt)          # the passed-on filter argument (`.`) is finally used once
+        feats["form"] += "!"
     if shape == "self":
         pos, body_call = tail_wrap(rng, step + callto("f", args_next), mode)
         prog = "def %s: if %s then %s else %s end;; %s|||%s" % (sig("f"), cond, body_call, done, init_input, callto("f", args_init))
